@@ -427,6 +427,19 @@ class KeyedSet(Generic[ItemType, KeyType], MutableSet, KeyedBase):  # pylint: di
         except TypeError:
             pass
 
+    def pop(self):
+        # (Not via the `MutableSet` mixin, which discards the popped item by
+        # value: an item whose key changed after it was added would be returned
+        # but never removed - and `clear()` would loop for ever.)
+        try:
+            key = next(iter(self._dict))
+        except StopIteration:
+            raise KeyError("pop from an empty KeyedSet") from None
+        return self._dict.pop(key)
+
+    def clear(self):
+        self._dict.clear()
+
     # Magic methods
 
     def __eq__(self, other):
